@@ -1,9 +1,13 @@
-\* C19 quick: every call site (capture mode x type class that compiles) x every transformation
-\* path of length <= 4 over {ByRef, Erase, EraseEvent, ToOwned, ToShared, IntoCtxt, MoveThread, ReadBack}.
+\* C19 quick: every call site (capture mode incl. inspect: absent/false/true x type class x macro wrap: props!,
+\* renamed key before/after the mode, evt! property, evt! template hole) x every transformation path of length <= 3
+\* over {ByRef, Erase, EraseEvent, ToOwned, ToShared, IntoCtxt, PushFrame, MoveThread, ReadBack} x every read path of
+\* the final representation; paths of length <= 1 on every pool extreme, longer ones on one seeded draw.
 SPECIFICATION Spec
 CONSTANTS
-    MaxSteps = 4
+    MaxSteps = 3
+    ExhaustUpTo = 1
     Emit = TRUE
 INVARIANTS TypeOK Preserved PresenceNeverLost TypedSurvivesBuffering StructureSurvivesBuffering DirectReadKeepsAll
+PROPERTY ReadersAgree
 ACTION_CONSTRAINT EmitReplay
 CHECK_DEADLOCK FALSE
